@@ -415,6 +415,20 @@ func checkHistory(c CaseHist, which string) (*vkit.Failure, vkit.Meta) {
 						// this node (the interrupt came from an enclosing graph)
 						info = &compose.InterruptInfo{AfterNodes: []string{key}}
 					}
+					if len(path) > 0 && (info == nil || !contains(info.AfterNodes, key)) {
+						// the nested run may have finished with this node and the enclosing graph moved on (the
+						// same graph node can run again later in this call and be interrupted for another reason)
+						for _, later := range events[i+1:] {
+							if later.Call != ev.Call {
+								break
+							}
+							lp, _ := splitTag(later.Node)
+							if len(lp) < len(path) && strings.HasPrefix(strings.Join(path, "/")+"/", strings.Join(lp, "/")+slashIf(lp)) {
+								info = &compose.InterruptInfo{AfterNodes: []string{key}}
+								break
+							}
+						}
+					}
 					if info == nil || !contains(info.AfterNodes, key) {
 						return &vkit.Failure{Kind: "after-node-not-reported", Sig: "after-node-not-reported",
 							Msg: fmt.Sprintf("node %s (interrupt-after) completed in call %d, which was interrupted, but the interrupt info at %v does not list it under AfterNodes", ev.Node, ev.Call, path)}
@@ -508,13 +522,7 @@ func checkHistory(c CaseHist, which string) (*vkit.Failure, vkit.Meta) {
 				if hst == nil {
 					hst = &gkit.GState{} // never observed: equal only if nothing (non-optional) was counted
 				}
-				bc, hc := map[string]int{}, map[string]int{}
-				for k, v := range bst.Count {
-					bc[k] = v
-				}
-				for k, v := range hst.Count {
-					hc[k] = v
-				}
+				bc, hc := benv.CountsOf(bst), h.env.CountsOf(hst)
 				for _, mm := range []map[string]int{bc, hc} {
 					// nodes that do not lead to END may or may not have run (or finished) when the run returns
 					for k := range mm {
